@@ -67,6 +67,54 @@ def adversarial(rnd):
     add("[" * 200 + "1" + "]" * 200, "deep-arrays", "any")
     add("x" + "[0]" * 2000, "long-index-chain", "any")
     add("1" + "+(2" * 400 + ")" * 400, "deep-right-nesting", ("value", str(1 + 2 * 400)))
+    # work hidden in nested contexts: every die (power-of-two sides: exactly one generator draw each) must be charged
+    add("&va = 20000d2; func g0() { va }; g0(); g0(); g0(); g0()", "nested-work", "budget")
+    add("&va = 20000d2; func g0() { va }; g0()+g0()+g0()+g0()", "nested-work", "budget")
+    add("func g0(){20000d2}; func g1(){ g0()+g0()+g0() }; g1()", "nested-work", "budget")
+    add("func g1(){ &vx = 20000d2; vx+vx+vx }; g1()", "nested-work", "budget")
+    add("&va = 20000d2; &vb = va + va; func g0() { vb + vb }; g0()", "nested-work", "budget")
+    add("func g0(){20000d2}; func g1(){ i=0; while i<5 { g0(); i=i+1 } }; g1()", "nested-work", "budget")
+    add("&va = 20000d2; func g0() { func g1() { va }; g1() + g1() }; g0() + g0()", "nested-work", "budget")
+    add("&va = 20000d2; x = `{va}{% va %}{va}{va}`; 1", "nested-work", "budget")
+    return out
+
+
+def work_programs(rnd, n):
+    """random programs whose dice sit in nested contexts (functions calling functions, computed values read from calling contexts,
+    local computed values, loops, templates); all dice have power-of-two sides, so one generator draw = one die"""
+    out = []
+    for _ in range(n):
+        leaf = lambda: f"{rnd.choice([3, 40, 700, 9000, 20000])}d{rnd.choice([2, 4, 8, 16, 256])}"
+        lines = [f"&va = {leaf()}", rnd.choice([f"&vb = va + {leaf()}", "&vb = va + va", f"&vb = {leaf()}"])]
+        funcs = []
+        for j in range(rnd.randrange(1, 4)):
+            terms = []
+            for _ in range(rnd.randrange(1, 4)):
+                k = rnd.randrange(7)
+                if k == 0:
+                    terms.append(leaf())
+                elif k == 1:
+                    terms.append(rnd.choice(["va", "vb"]))
+                elif k == 2 and funcs:
+                    terms.append(rnd.choice(funcs) + "()")
+                elif k == 3:
+                    terms.append(f"`{{{rnd.choice(['va', 'vb', leaf()])}}}`")
+                else:
+                    terms.append(rnd.choice(["va", "vb", leaf()] + [x + "()" for x in funcs]))
+            body = " + ".join(t if not t.startswith("`") else "1" for t in terms)
+            pre = "".join(f"x{j} = {t}; " for t in terms if t.startswith("`"))
+            shape = rnd.randrange(4)
+            if shape == 0:
+                body = f"{pre}&vl = {body}; vl + vl"
+            elif shape == 1:
+                body = f"{pre}i = 0; s = 0; while i < {rnd.choice([2, 3, 6])} {{ s = s + {body}; i = i + 1 }}; s"
+            else:
+                body = pre + body
+            lines.append(f"func g{j}() {{ {body} }}")
+            funcs.append(f"g{j}")
+        items = [rnd.choice([x + "()" for x in funcs] + ["va", "vb"]) for _ in range(rnd.randrange(1, 5))]
+        main = rnd.choice(["; ", " + "]).join(items)
+        out.append(("; ".join(lines) + "; " + main, "nested-work-gen", "any"))
     return out
 
 
@@ -108,6 +156,10 @@ def run(res, tier, seed):
             for mode in ((0, -1, 1) if kind in ("exploding", "huge-times", "huge-coc") else (0,)):
                 cases.append({"b64": base64.b64encode(s.encode()).decode(), "oplimit": L, "parselimit": 0, "mode": mode})
                 meta.append((s, kind, exp, L, mode, 0))
+    for s, kind, exp in work_programs(rnd, 150 if tier == "quick" else 3000):
+        L = rnd.choice([50, 1000, 30000, 30000])
+        cases.append({"b64": base64.b64encode(s.encode()).decode(), "oplimit": L, "parselimit": 0, "mode": 0})
+        meta.append((s, kind, exp, L, 0, 0))
     # parse budget
     for s in ("+".join(["1"] * 3000), "(" * 200 + "1" + ")" * 200, "x=1;" * 2000):
         for pl in (200, 5000, 10000000):
@@ -135,6 +187,12 @@ def run(res, tier, seed):
         # budget accounting: a run that returns a value never has its counter above the limit
         if row.get("ok") and row["ops"] > L:
             res.violation(dict(desc, what=f"returned a value although NumOpCount={row['ops']} exceeds OpCountLimit={L}", value=row.get("str")))
+            found += 1
+        # every die rolled is charged: these programs only roll dice with power-of-two sides (one generator draw per die, no
+        # rejection), the VM's generator is private, so the number of draws of the run can never exceed the counter
+        if kind.startswith("nested-work") and row.get("draws", -1) >= 0 and row["draws"] > row["ops"]:
+            res.violation(dict(desc, what=f"{row['draws']} dice were rolled but NumOpCount is only {row['ops']} "
+                                          f"({'the run returned a value' if row.get('ok') else 'error: ' + str(row.get('err'))})"))
             found += 1
         # work proportional to the budget: wall clock as a backstop (a dispatch costs well under 1 microsecond.. 1 ms)
         # (execution time only: parsing a long source is bounded by the parse budget, not by OpCountLimit)
